@@ -187,6 +187,7 @@ def run(ctx):
     # ---- R: inv: links in real documents ---------------------------------------------
     for k, rec in enumerate(link_cases + shared_cases + order_cases):
         _replay_link(ctx, rec, k)
+    sphinx_link_leg(ctx, shared_cases[:8] + link_cases, quick)
     ctx.leg("R-link", documents=len(link_cases) + len(shared_cases) + len(order_cases), two_inventories_unsorted=n_order)
     if n_order == 0:
         raise tlc.MachineryFailure("no link case with matches in two inventories configured in non-alphabetical order")
@@ -383,6 +384,85 @@ def _replay_link(ctx, rec, k):
     if refs[0].astext() != exp_text:
         ctx.violation("inv: link text differs (explicit text, else the entry's display name, else its name)",
                       {**case, "expected_text": exp_text, "got_text": refs[0].astext()})
+
+
+REN_DOM = {"s": "std", "py": "py"}
+REN_TYP = {"f": "doc", "f:n": "doc:n"}
+
+
+def _sphinx_link_job(job):
+    """one Sphinx project (intersphinx with local inventory files) per case: the inv: link of the case in index.md"""
+    from ..sphinx_runner import run_project
+    wd, k, rec = job
+    ents = [[c2s(x) for x in e] for e in rec["inv"]]
+    flt = [None if p == NONE else c2s(p) for p in rec["flt"]]
+    # injective renaming of the abstract domain s / types f, f:n to std / doc, doc:n (names Sphinx itself knows)
+    ents = [[i_, REN_DOM[d], REN_TYP[ty], n] for i_, d, ty, n in ents]
+    if flt[2] is not None:
+        flt[2] = flt[2].replace("f", "doc", 1)
+    d = Path(wd) / f"sxl{k}"
+    d.mkdir(parents=True, exist_ok=True)
+    native = _native(ents)
+    mapping = {}
+    for j, (iname, o) in enumerate(native.items()):
+        es = [(dm, ty, n, it["loc"], it["text"]) for dm, dd in o["objects"].items() for ty, td in dd.items() for n, it in td.items()]
+        pth = d / f"{j}.inv"
+        pth.write_bytes(_inv_bytes(o["name"], es))
+        mapping[iname] = (f"https://ex.org/{iname}/", str(pth))
+    parts = ["*" if f is None else f for f in flt[:3]]
+    while parts and flt[len(parts) - 1] is None:
+        parts.pop()
+    href = "inv:" + ":".join(parts) + "#" + flt[3]
+    text = "[explicit]({})".format(href.replace("\\", "\\\\")) if k % 2 else f"<{href}>"
+    files = {"index.md": f"# T\n\nbefore\n\n{text}\n\nafter\n"}
+    r = run_project(d / "src", files, {"extensions": ["myst_parser", "sphinx.ext.intersphinx"], "intersphinx_mapping": mapping,
+                                       "intersphinx_cache_limit": -1}, resolve=True)
+    out = {"ok": r["ok"], "error": r["error"], "source": files["index.md"], "entries": ents, "filter": flt}
+    if r["ok"]:
+        from docutils import nodes
+        t = r["doctrees"].get("index")
+        out["refs"] = [x.get("refuri") for x in t.findall(nodes.reference) if x.get("refuri", "").startswith("https://ex.org/")] if t is not None else None
+        out["tags"] = [w["tag"] for w in (r.get("build_warnings") or []) if w["tag"] and w["tag"].startswith("myst.iref")]
+    import shutil
+    shutil.rmtree(d, ignore_errors=True)
+    return out
+
+
+def sphinx_link_leg(ctx, cases, quick):
+    """inv: links under Sphinx: the inventories are intersphinx's (loaded from local files); an omitted inventory part
+    means every inventory, whatever the object type"""
+    def names_sorted(c):
+        # (intersphinx itself keeps its named inventories sorted by name: under Sphinx that IS the inventory order)
+        seen = []
+        for e in c["inv"]:
+            if c2s(e[0]) not in seen:
+                seen.append(c2s(e[0]))
+        return seen == sorted(seen)
+    pick = [c for c in cases if c["flt"][3] != NONE and names_sorted(c)][: (24 if quick else 200)]
+    from ..pool import pmap
+    outs = pmap(_sphinx_link_job, [(str(ctx.wd / "sxlinks"), k, rec) for k, rec in enumerate(pick)], procs=8, chunksize=1)
+    for rec, o in zip(pick, outs):
+        ctx.count(("sphinx-link", o["source"], repr(o["entries"])))
+        ctx.traces_validated += 1
+        case = {"leg": "R-sphinx-link", "source": o["source"], "entries": o["entries"], "filter": o["filter"]}
+        if not o["ok"]:
+            ctx.violation(f"Sphinx build with an inv: link failed: {o['error']}", case)
+            continue
+        exp_warn = [] if rec["warn"] == "none" else ["myst." + rec["warn"]]
+        if sorted(set(o["tags"])) != exp_warn:
+            ctx.violation(f"Sphinx: inv: link warnings {sorted(set(o['tags']))}, the specification says {exp_warn}", case)
+            continue
+        if rec["first"] == 0:
+            if o["refs"]:
+                ctx.violation("Sphinx: an inv: link without match rendered a reference", {**case, "got": o["refs"]})
+            continue
+        e = o["entries"][rec["first"] - 1]
+        loc = "shared.html#anchor" if e[3].startswith("a") else f"{e[1]}/{e[2]}.html#{e[3]}"
+        exp_uri = f"https://ex.org/{e[0]}/{loc}"
+        if o["refs"] != [exp_uri]:
+            ctx.violation("Sphinx: inv: link must render the first match's location joined to its base URL",
+                          {**case, "expected_refuri": exp_uri, "got": o["refs"]})
+    ctx.leg("R-sphinx-link", projects=len(pick))
 
 
 def replay(case) -> int:
